@@ -32,7 +32,7 @@ META = {
     "generated from S, against the Lean driver; the harness also counts how many explored cases lie under the theorems' hypotheses "
     "and checks the implementation behaves there as the theorems say.",
     "note": "Trusted: Lean kernel; hand-written models of check_type/expand_and_check and coerce (tie = differential + regenerated "
-    "tables); finite class universe (no numpy/ty.Type/StateArray); the theorem does not cover values of exotic classes (str as "
+    "tables); finite class universe (32 classes incl. fileformats field.Integer/Decimal/Text/Boolean; no File/Directory/FsObject, numpy, ty.Type, StateArray); the theorem does not cover values of exotic classes (str as "
     "Sequence[str], range, dict views) nor set items / dict keys whose pattern is not hashTy (e.g. set[Any]).",
     "rule": "case = (S, T, values of S); distinct by canonical JSON of (S, T); non-trivial = the static check passes and at least "
     "one of S, T is generic or a union",
